@@ -142,6 +142,7 @@ class SimActorSystem:
         self.on_send = None  # observation hook (src cell or None, dst cell, msg): anchors faults on protocol events
         self.on_step = None
         self.timer_late = k.get("timer_late", True)
+        self.timer_late_max = k.get("timer_late_max", 2e-3)  # timers fire late, never early; a loaded host is later
         self.hang = None
         self.max_virtual = None
         self.dropped_unpicklable = 0
@@ -257,7 +258,7 @@ class SimActorSystem:
         secs = max(0.0, secs)
         late = 0.0
         if self.timer_late:
-            late = self.net.uniform(0, 2e-3)
+            late = self.net.uniform(0, self.timer_late_max)
             if self.stall_p and self.net.coin(self.stall_p):
                 late += self.net.uniform(*self.stall_range)
                 self.probe("wakeup_stall")
